@@ -212,7 +212,7 @@ class Oracle:
         hs = self.spread / 2
         for col, contract in zip(self.cols, self.contracts):
             book = env.exchange[contract]
-            p = self.Y_in.at[now, col]
+            p = float(self.Y_in.at[now, col])
             if not np.isnan(p):
                 if not (_rel(book.bid_price, p - p * hs) and _rel(book.ask_price, p + p * hs)):
                     self.fail("%s at %s quoted %r : %r, given price %r with spread %r gives %r : %r" % (
@@ -221,12 +221,12 @@ class Oracle:
             self.nan_at_step = True
             seen = self.Y_in[col].loc[self.first:now].dropna()
             if len(seen):
-                q = seen.iloc[-1]
+                q = float(seen.iloc[-1])
                 if not (_rel(book.bid_price, q - q * hs) and _rel(book.ask_price, q + q * hs)):
                     self.fail("%s has no price at %s; book %r : %r is not the most recent given price %r (%s)" % (
                         col, tag, book.bid_price, book.ask_price, float(q), seen.index[-1].date()))
             elif not (np.isnan(book.bid_price) and np.isnan(book.ask_price)):
-                old = env.Y[contract].loc[:now].dropna().values
+                old = env.Y[contract].loc[:now].dropna().values.astype(float)
                 if not any(_rel(book.bid_price, q - q * hs) and _rel(book.ask_price, q + q * hs) for q in old):
                     self.fail("%s has no price at %s; book %r : %r is not an earlier given price" % (
                         col, tag, book.bid_price, book.ask_price))
